@@ -86,7 +86,7 @@ func shrinkAndConfirm(c *Ctx, p *plan.Plan, v Violation) (*plan.Plan, bool) {
 	}
 	deadline := time.Now().Add(budget)
 	fails := func(q *plan.Plan) bool {
-		res, err := RunPlan(q, genericBetween)
+		res, err := c.Check.exec(q)
 		if err != nil {
 			return false
 		}
